@@ -147,7 +147,7 @@ func c02FreeIP(p *chk.Prog, r *chk.Report) {
 			g.Dominated(rt, g.GPat(false, "AV && ipConfusesBuggyFirmwares(POS.IP)", chk.H("AV", isParam(f, "avoidBuggyIPs")), chk.H("POS", pos))),
 			"", "an address can be returned without the .0/.255 filter of an avoid-buggy pool")
 		x.Check("getIPFromCIDR:return:checkSharing", rt.Pos(),
-			g.Dominated(rt, g.GErrNil(true, "RECV.checkSharing(SVC, POS.IP.String(), PORTS, SK)", chk.H("POS", pos), chk.H("SVC", crossParam(p, f, "svc", "svcKey")),
+			g.Dominated(rt, g.GErrNil(true, checkSharingCallPat(p, "SVC", "PORTS", "SK"), chk.H("IP", func(e ast.Expr) bool { b := f.MatchNew("POS.IP", e); return b != nil && pos(b["POS"]) }), chk.H("SVC", crossParam(p, f, "svc", "svcKey")),
 				chk.H("PORTS", crossParam(p, f, "ports")), chk.H("SK", sharingKeyOf(p, f)))),
 			"", "an address can be returned without a successful checkSharing for the requesting service")
 	}
